@@ -355,6 +355,21 @@ func corr(c *hc.Ctx) []*canvas.Path {
 				} else {
 					c.Count("scenario:collinear-reversal:" + kind)
 				}
+					} else if follow >= 0 && c.Chance(0.35) {
+				// scenario for Join's close repair: q continues p with an OPEN piece and has a later CLOSED
+				// subpath (plus, sometimes, a first piece that closes): only the Close of the joined piece
+				// may be redirected to p's start, every later Close keeps its own subpath's MoveTo
+				a, b, d, e := pool[1], pool[2], pool[4], pool[3]
+				script = []op{{k: 'L', f: []float64{a.X, a.Y}}}
+				if c.Chance(0.3) {
+					script = append(script, op{k: 'L', f: []float64{b.X, b.Y}}, op{k: 'Z'})
+				}
+				script = append(script, op{k: 'M', f: []float64{d.X + 20, d.Y + 20}}, op{k: 'L', f: []float64{e.X + 31, e.Y + 20}},
+					op{k: 'L', f: []float64{e.X + 30, e.Y + 33}}, op{k: 'Z'})
+				if nops < len(script) {
+					nops = len(script) + c.Intn(2)
+				}
+				c.Count("scenario:join-open-then-closed-subpath")
 			}
 			for n := 0; n < nops; n++ {
 				o := genOp(c, pool)
